@@ -232,7 +232,8 @@ def expand_brackets(s: str) -> str:
         else:
             # Looks for first number*(
             m = BRACKET_RE.search(s)
-            if m:
+            # The match must be for this bracket: one found further along means this bracket's factor isn't a number.
+            if m and m.end() == start + 1:
                 factor = int(m.group('factor'))
                 matchstart = m.start('factor')
                 s = s[0:matchstart] + (factor - 1) * (s[start + 1:p] + ',') + s[start + 1:p] + s[p + 1:]
